@@ -214,13 +214,16 @@ def _check_single(case):
     import pandas as pd
     from fairlearn.metrics._annotated_metric_function import AnnotatedMetricFunction
     from fairlearn.metrics._bootstrap import generate_single_bootstrap_sample
-    n, with_nan, seed0 = case
+    n, with_nan, seed0 = case[:3]
+    with_cf = len(case) > 3 and bool(case[3])          # a control feature whose first level has a single member (it is absent from many resamples)
     fp = fingerprint(case)
     ids = np.arange(100, 100 + n)
     yp = ids.astype(float) * 2.0
     if with_nan:
         yp[[0, n - 1] if n > 1 else [0]] = np.nan
     df = pd.DataFrame({"y_true": ids, "y_pred": yp, "sf": ["g%d" % (i % 2) for i in range(n)]})
+    if with_cf:
+        df["cf"] = ["rare"] + ["c%d" % (i % 2) for i in range(1, n)]
     seen_rows, sizes, bad_pair = set(), [], []
 
     def rec(y_true, y_pred):
@@ -234,14 +237,16 @@ def _check_single(case):
     for s_ in range(seed0, seed0 + draws):
         seen_rows_before = len(seen_rows)
         try:
-            r = generate_single_bootstrap_sample(random_state=s_, data=df, annotated_functions={"rec": amf}, sensitive_feature_names=["sf"], control_feature_names=None)
+            r = generate_single_bootstrap_sample(random_state=s_, data=df, annotated_functions={"rec": amf}, sensitive_feature_names=["sf"],
+                                                 control_feature_names=["cf"] if with_cf else None)
         except Exception as ex:
             return (True, fp, ("C18:single-sample:raises", f"generate_single_bootstrap_sample raised {type(ex).__name__}: {ex} [n={n} NaN cells={with_nan} seed={s_}]"[:300],
                                {"n": n, "with_nan": with_nan, "random_state": s_}))
-        sizes.append(int(r.overall["rec"]))
+        sizes.append(int(np.nansum(np.asarray(r.overall["rec"], dtype=float))))          # with a control feature: one row count per control level that was drawn
         if sizes[-1] != n:
-            return (True, fp, ("C18:single-sample:row-count", f"a resample of {n} data rows has {sizes[-1]} rows (random_state={s_}, NaN cells in the data: {with_nan})",
-                               {"n": n, "with_nan": with_nan, "random_state": s_, "rows_in_resample": sizes[-1]}))
+            return (True, fp, ("C18:single-sample:row-count", f"a resample of {n} data rows has {sizes[-1]} rows (random_state={s_}, NaN cells in the data: {with_nan}, "
+                               f"control feature with a single-member level: {with_cf})",
+                               {"n": n, "with_nan": with_nan, "control_feature": with_cf, "random_state": s_, "rows_in_resample": sizes[-1]}))
     if bad_pair:
         return (True, fp, ("C18:single-sample:rows-not-kept-together", f"a resampled row pairs y_true with another row's y_pred: {bad_pair[:3]}", {"n": n, "pairs": bad_pair[:5]}))
     missing = sorted(set(int(i) for i in ids) - seen_rows)
@@ -251,15 +256,50 @@ def _check_single(case):
     return (True, fp, None)
 
 
+def _check_distinct(case):
+    """'the resamples differ': within one run of generate_bootstrap_samples (n_samples in 2..4, integer seed) the resamples handed to the metric are pairwise
+    different multisets of rows (two equal resamples of 30 rows have probability < 1e-20 under independent uniform resampling)"""
+    import pandas as pd
+    from fairlearn.metrics._annotated_metric_function import AnnotatedMetricFunction
+    from fairlearn.metrics._bootstrap import generate_bootstrap_samples
+    n_samples, seed = case
+    fp = fingerprint(case)
+    n = 30
+    df = pd.DataFrame({"y_true": np.arange(n), "y_pred": np.arange(n) % 2, "sf": ["g%d" % (i % 2) for i in range(n)]})
+    drawn = []
+
+    def rec(y_true, y_pred):
+        if len(y_true) == n:          # the overall evaluation of one resample (the by-group evaluations see fewer rows)
+            drawn.append(tuple(sorted(int(t) for t in y_true)))
+        return len(y_true)
+    amf = AnnotatedMetricFunction(func=rec, name="rec", positional_argument_names=["y_true", "y_pred"])
+    try:
+        generate_bootstrap_samples(n_samples=n_samples, random_state=seed, data=df, annotated_functions={"rec": amf}, sensitive_feature_names=["sf"],
+                                   control_feature_names=None)
+    except Exception as ex:
+        return (True, fp, ("C18:bootstrap-samples:raises", f"generate_bootstrap_samples(n_samples={n_samples}, random_state={seed}) raised {type(ex).__name__}: {ex}"[:300],
+                           {"n_samples": n_samples, "random_state": seed}))
+    if len(drawn) != n_samples or len(set(drawn)) != len(drawn):
+        return (True, fp, ("C18:bootstrap-samples:identical-resamples", f"generate_bootstrap_samples(n_samples={n_samples}, random_state={seed}) on {n} distinct rows evaluated "
+                           f"{len(drawn)} resamples of which only {len(set(drawn))} are different", {"n_samples": n_samples, "random_state": seed, "rows": n,
+                                                                                                   "resamples": [list(d) for d in drawn]}))
+    return (True, fp, None)
+
+
 def run_bounded(rep):
     rep.assume("A2", "A7")
     reps = 2 if rep.tier == "quick" else 16
     cases = [(lay, m, nb, ql, rep.seed * 1000 + r) for lay, m, nb, ql in itertools.product(LAYOUTS, METRICS, NBOOT, QLISTS) for r in range(reps)]
     single = [(n, nan, rep.seed * 7919 + 13 * n) for n in (1, 2, 3, 5, 8) for nan in (False, True)]
+    single += [(n, False, rep.seed * 7919 + 13 * n, True) for n in (3, 5, 8)]
     run_cases(rep, "single_resample_rtc",
               rule="generate_single_bootstrap_sample called directly with a recording metric: n in {1,2,3,5,8} rows x (no NaN | NaN in the prediction column of the first and last row), "
-                   "40+40n integer seeds each: n rows per resample, rows kept together, every data row drawn at least once", bound="n <= 8, <= 360 seeds", cases=single,
+                   "plus n in {3,5,8} with a control feature that has a single-member level; 40+40n integer seeds each: n rows per resample, rows kept together, every data row drawn at least once", bound="n <= 8, <= 360 seeds", cases=single,
               check_case=_check_single, exhaustive=False)
+    dist = [(k, rep.seed * 101 + j) for k in (2, 3, 4) for j in range(12 if rep.tier == "quick" else 100)]
+    run_cases(rep, "resamples_differ_rtc",
+              rule="generate_bootstrap_samples called directly with a recording metric on 30 distinct rows, n_samples in {2,3,4} x integer seeds: the resamples of one run "
+                   "are pairwise different multisets of rows", bound="30 rows, n_samples <= 4", cases=dist, check_case=_check_distinct, exhaustive=False)
     run_cases(rep, "bootstrap_ci_rtc",
               rule="full grid layout (sensitive,control) %s x metrics %s x n_boot %s x ci_quantiles %s, %d seeded datasets of 4..12 rows per grid point "
                    "(2-3 values per feature, groups vanish from resamples); checks: list/shape/type/index, order in q, reproducibility, row count, constant "
